@@ -50,6 +50,9 @@ type Frame struct {
 	kind     int // 0 normal call, 1 deferred call (resume RunDefers), 2 closure sequentialised
 	inl      string
 	loopSnap map[*ssa.BasicBlock]*Snapshot
+	headSnap map[*ssa.BasicBlock]*Snapshot          // state at the start of an arbitrary iteration (after the invariant was assumed)
+	headPhi  map[*ssa.BasicBlock]map[*ssa.Phi]Val // loop-carried values at the start of that iteration
+	headCells map[*ssa.BasicBlock]map[*Cell]Val
 	curLoop  *Loop
 	pendingDefers []deferred // for kind 1: remaining defers of parent
 }
@@ -71,6 +74,18 @@ func (fr *Frame) clone() *Frame {
 	n.cells = map[*ssa.Alloc]*Cell{}
 	for k, v := range fr.cells {
 		n.cells[k] = v
+	}
+	n.headSnap = map[*ssa.BasicBlock]*Snapshot{}
+	for k, v := range fr.headSnap {
+		n.headSnap[k] = v
+	}
+	n.headPhi = map[*ssa.BasicBlock]map[*ssa.Phi]Val{}
+	for k, v := range fr.headPhi {
+		n.headPhi[k] = v
+	}
+	n.headCells = map[*ssa.BasicBlock]map[*Cell]Val{}
+	for k, v := range fr.headCells {
+		n.headCells[k] = v
 	}
 	n.loopSnap = map[*ssa.BasicBlock]*Snapshot{}
 	for k, v := range fr.loopSnap {
@@ -421,6 +436,24 @@ func (x *Exec) enterBlock(st *State, fr *Frame, from, to *ssa.BasicBlock) {
 	x.loopInvariants(st, fr, loop, "init", false)
 	x.havocLoop(st, fr, loop, phis)
 	x.loopInvariants(st, fr, loop, "", true)
+	if fr.headSnap == nil {
+		fr.headSnap = map[*ssa.BasicBlock]*Snapshot{}
+		fr.headPhi = map[*ssa.BasicBlock]map[*ssa.Phi]Val{}
+	}
+	fr.headSnap[to] = st.snapshot()
+	hp := map[*ssa.Phi]Val{}
+	for _, ph := range phis {
+		hp[ph] = fr.vals[ph]
+	}
+	fr.headPhi[to] = hp
+	if fr.headCells == nil {
+		fr.headCells = map[*ssa.BasicBlock]map[*Cell]Val{}
+	}
+	hc := map[*Cell]Val{}
+	for c, v := range st.cells {
+		hc[c] = v
+	}
+	fr.headCells[to] = hc
 	fr.cut[to] = true
 	x.run(st, fr, to, first)
 }
